@@ -105,6 +105,27 @@ def sweeps(tier):
                         items.append(['str', ('%02x' % (i & 0xFF)) * (1 + i % 3)])
                 long_cases.append({'bo': bo, 'wo': wo, 'via': via, 'items': items})
     out.append(('long-payloads-of-400-items', long_cases, False))
+    # neighbours that compare equal in Python although they differ in type, sign or width (1 == 1.0 == True, 0.0 == -0.0):
+    # int then float of the same width and the other way round, signed / unsigned twins, the same number in two widths
+    twins = []
+    fpat = lambda name, x: int.from_bytes(struct.pack('>' + FLOATS[name][1], float(x)), 'big')
+    for bits, u, i_, fl in ((16, 'u16', 'i16', 'f16'), (32, 'u32', 'i32', 'f32'), (64, 'u64', 'i64', 'f64')):
+        for n in (0, 1, 2, 100, 1024):
+            for a, b in (([u, n], [fl, fpat(fl, n)]), ([fl, fpat(fl, n)], [i_, n]), ([i_, n], [u, n]), ([u, n], [i_, n])):
+                twins.append([a, b])
+        for n in (-1, -3, -1024):
+            twins.append([[i_, n], [fl, fpat(fl, n)]])
+            twins.append([[fl, fpat(fl, n)], [i_, n]])
+        twins.append([[fl, 0], [fl, 1 << (bits - 1)]])      # 0.0 then -0.0
+        twins.append([[fl, 1 << (bits - 1)], [fl, 0]])
+        twins.append([[fl, 0], [fl, 1 << (bits - 1)], [u, 0], [fl, 0]])
+    for a, b in (('u8', 'u16'), ('u16', 'u32'), ('u32', 'u64'), ('i16', 'i64'), ('u8', 'i8')):
+        for n in (0, 1, 100):
+            twins.append([[a, n], [b, n], [a, n]])
+    twins.append([['u8', 1], ['bits', [True]], ['u16', 1], ['f16', fpat('f16', 1)], ['u16', 1]])
+    twin_cases = [{'bo': bo, 'wo': wo, 'via': via, 'items': [list(x) for x in items]}
+                  for bo in '<>' for wo in '<>' for via in ('bytes', 'regs') for items in twins]
+    out.append(('numerically-equal-neighbours', twin_cases, False))
     return out
 
 
